@@ -949,12 +949,24 @@ fn add_semi_join_reduction(
                 .filter(|f| key_names.contains(&f.name.as_str()))
                 .cloned()
                 .collect();
-            if !keep.is_empty() && keep.len() < src_schema.fields().len() {
+            let nkeep = keep.len();
+            let nfields = src_schema.fields().len();
+            if nkeep > 0 && nkeep < nfields {
                 let exprs: Vec<Expr> = keep.iter().map(|f| Expr::column(&f.name)).collect();
                 src = LogicalPlan::Project(ProjectNode {
                     input: Arc::new(src),
                     exprs,
                     schema: PlanSchema::new(keep),
+                });
+            }
+            // The reduction below is an INNER join: a key value that occurs n
+            // times in the source repeats every matching aggregate-input row n
+            // times and multiplies COUNT / SUM. The outer side is not a
+            // dimension with a unique key in general (duplicate correlation
+            // values), so make the key list duplicate-free.
+            if nkeep > 0 && nkeep <= nfields {
+                src = LogicalPlan::Distinct(DistinctNode {
+                    input: Arc::new(src),
                 });
             }
         }
